@@ -636,23 +636,24 @@ class EvalFunc:
         dec_other = []
         dec_trig = []
         dec_dm = []
-        for dec in self.func_def.decorator_list:
-            if known_dec := await ast_ctx.global_ctx.get_decorator_by_expr(ast_ctx, dec):
-                dec_dm.append(known_dec)
-            elif (
-                isinstance(dec, ast.Call)
-                and isinstance(dec.func, ast.Name)
-                and dec.func.id in TRIG_SERV_DECORATORS
-            ):
-                args = await ast_ctx.eval_elt_list(dec.args)
-                kwargs = {keyw.arg: await ast_ctx.aeval(keyw.value) for keyw in dec.keywords}
-                dec_trig.append([dec.func.id, args, kwargs if len(kwargs) > 0 else None])
-            elif isinstance(dec, ast.Name) and dec.id in TRIG_SERV_DECORATORS:
-                dec_trig.append([dec.id, None, None])
-            else:
-                dec_other.append(await ast_ctx.aeval(dec))
-
-        ast_ctx.code_str, ast_ctx.code_list = code_str, code_list
+        try:
+            for dec in self.func_def.decorator_list:
+                if known_dec := await ast_ctx.global_ctx.get_decorator_by_expr(ast_ctx, dec):
+                    dec_dm.append(known_dec)
+                elif (
+                    isinstance(dec, ast.Call)
+                    and isinstance(dec.func, ast.Name)
+                    and dec.func.id in TRIG_SERV_DECORATORS
+                ):
+                    args = await ast_ctx.eval_elt_list(dec.args)
+                    kwargs = {keyw.arg: await ast_ctx.aeval(keyw.value) for keyw in dec.keywords}
+                    dec_trig.append([dec.func.id, args, kwargs if len(kwargs) > 0 else None])
+                elif isinstance(dec, ast.Name) and dec.id in TRIG_SERV_DECORATORS:
+                    dec_trig.append([dec.id, None, None])
+                else:
+                    dec_other.append(await ast_ctx.aeval(dec))
+        finally:
+            ast_ctx.code_str, ast_ctx.code_list = code_str, code_list
         return dec_trig, reversed(dec_other), dec_dm
 
     async def resolve_nonlocals(self, ast_ctx):
